@@ -10,10 +10,9 @@
    External behaviour enters as explicit arguments: which external command fails, where the
    process dies, health outcomes, filesystem obstacles that make one SwapArtifact fail, and
    the admission facts about a tarball (signature valid, digests match, members safe, ...).
-   [repaired] = /repo with the four committed repairs (88f69f7, f4d379f, b6afef3, ca3a3f9) plus the one still
-   proposed (v_same_fix); [leaves_residue] = /repo at ca3a3f9, the only other variant in the correspondence (recorded
-   finding forceretry-subset-leaves-residue).  [pre_b6afef3], [pre_88f69f7] are historical (`_refuted` witnesses only);
-   a regression to them is a VIOLATION. *)
+   [repaired] = what /repo HEAD does: all five repairs are committed (88f69f7, f4d379f, b6afef3, ca3a3f9, 31f4cb6)
+   and it is the only variant the correspondence check compares with.  [pre_31f4cb6], [pre_b6afef3], [pre_88f69f7]
+   are historical (`_refuted` witnesses in Properties.v only); a regression to any of them is a VIOLATION. *)
 From OV Require Import Common.Base.
 
 Definition path := N.
@@ -57,7 +56,7 @@ Record faults := {
 (* v_mode_fix (88f69f7): rollback restores setuid/setgid/sticky; v_curm_fix (f4d379f): rollback restores
    current-manifest.yaml; v_keep_fix (b6afef3): a ForceRetry apply over an interrupted upgrade keeps that upgrade's
    snapshot; v_stale_fix (ca3a3f9): Rollback refuses a journal whose snapshot never completed;
-   v_same_fix (proposed, fixes/C18_force_retry_same_artifact_set.patch): such a ForceRetry must install EVERY path
+   v_same_fix (31f4cb6): such a ForceRetry must install EVERY path
    the kept snapshot covers, otherwise paths already replaced by the interrupted upgrade keep its bytes *)
 Record variant := { v_mode_fix : bool; v_curm_fix : bool; v_keep_fix : bool; v_stale_fix : bool; v_same_fix : bool }.
 
@@ -567,8 +566,8 @@ Definition init_world (c : ver) (f : path -> option file) : world :=
 
 Definition repaired : variant :=
   {| v_mode_fix := true; v_curm_fix := true; v_keep_fix := true; v_stale_fix := true; v_same_fix := true |}.
-(* /repo at ca3a3f9 (the four committed repairs, not yet the same-artifact-set check) *)
-Definition leaves_residue : variant :=
+(* historical: /repo between ca3a3f9 and 31f4cb6 (without the same-artifact-set check) *)
+Definition pre_31f4cb6 : variant :=
   {| v_mode_fix := true; v_curm_fix := true; v_keep_fix := true; v_stale_fix := true; v_same_fix := false |}.
 (* historical: /repo between f4d379f and b6afef3 (mode and current-manifest fixes in, ForceRetry still
    re-snapshots, Rollback still accepts a journal at "started") *)
